@@ -295,7 +295,9 @@ def main():
 
 def finish(prop, tier, t_start, obligations, discharged, inconclusive, violations, harness_errors,
            samples, functions, paths, queries, solver_s, bounds, mod, extra_notes):
-    d = os.path.join(ROOT, 'evidence')
+    # VF_EVIDENCE_DIR: used by tools/try_seed.sh only, so that trial runs against a seeded change never overwrite the
+    # committed evidence (which must come from the unchanged tree)
+    d = os.environ.get('VF_EVIDENCE_DIR') or os.path.join(ROOT, 'evidence')
     os.makedirs(d, exist_ok=True)
     if not samples:
         samples = [{'note': 'no obligation produced a sample on this run'}]
